@@ -101,37 +101,21 @@ def r1_children(P, rep, ctx):
     for n in bound_stores:
         for t in n.stmt.targets:
             maps.setdefault(norm(t.value), []).append(n)
-    # the bound map is the one the result is filtered from: a comprehension over <map>.items(), or a loop that copies entries
-    ret = [v for _, v in f.returns() if v is not None and isinstance(f.xe(v), ast.DictComp)]
-    res_loop = None
-    if len(ret) == 1:
-        comp = f.xe(ret[0])
-        src = norm(comp.generators[0].iter)
-        tv = [norm(t) for t in (comp.generators[0].target.elts if isinstance(comp.generators[0].target, ast.Tuple) else [])]
-        kk, ix = (tv + ["k", "idx"])[:2]
-        kept = None
-        conds = [c for i in comp.generators[0].ifs for c in M.conjuncts(i)]
-        kept = ast.BoolOp(op=ast.And(), values=conds) if len(conds) > 1 else conds[0] if conds else ast.Constant(value=True)
-        mapping_ok = norm(comp.key) == kk and norm(comp.value) == ix
-    else:
-        # loop form: for k, idx in <sorted>(<map>.items()): [skip conditions]; result[k] = idx
-        rnames = {v.id for _, v in f.returns() if isinstance(v, ast.Name)}
-        cands = [n for n in g.nodes if n.kind == "for" and n is not oi and isinstance(n.stmt.target, ast.Tuple) and len(n.stmt.target.elts) == 2 and ".items()" in f.x(n.stmt.iter)]
-        for n in cands:
-            kk, ix = norm(n.stmt.target.elts[0]), norm(n.stmt.target.elts[1])
-            sts = [i for r_ in rnames for i, v, b in f.stores(f"{r_}[{kk}]") if norm(v) == ix]
-            if sts:
-                res_loop = (n, sts)
+    # the bound map is the one the result is filtered from: a comprehension over its items / keys, or a loop that copies entries
+    df = None
+    ret = []
+    for _, v in f.returns():
+        if v is not None:
+            df = f.dict_filter(v)
+            if df is not None:
+                ret = [df["loop"].stmt] if "loop" in df else [v]
                 break
-        if res_loop is None:
-            raise AnalysisError("C01.R1: result comprehension of _children not found")
-        n, sts = res_loop
-        src = f.x(n.stmt.iter)
-        kk, ix = norm(n.stmt.target.elts[0]), norm(n.stmt.target.elts[1])
-        kept = f.condition_of((n.idx, "iter"), [n.idx], sts)
-        mapping_ok = True
-        ret = [n.stmt]
-    bmap = next((m for m in maps if f"{m}.items()" in src), None)
+    if df is None:
+        raise AnalysisError("C01.R1: result comprehension of _children not found")
+    kk, ix, kept, mapping_ok = df["key"], df["val"], df["kept"], True
+    bmap = df["map"] if df["map"] in maps else None
+    if bmap is None:
+        raise AnalysisError(f"C01.R1: the result of _children is filtered from {df['map']}, which is not a map filled by the scan")
     known = f.tests(f"{kvar} in {bmap}")  # edges on which the child was seen before (in a newer container)
     unseen = f.neg(known)
     lowering = [n for n in maps[bmap] if not f.hit_before(n.idx, edges=unseen, src=kn.idx)]
